@@ -449,6 +449,9 @@ func c15DecodeResult(c *Ctx, m *Module, rule string) {
 			k, isC := constOf(argsOf(cl)[1])
 			ok = isC && k == "\n"
 		}
+		if cl, isCall := v.(*ssa.Call); isCall && calleeName(&cl.Call) == "(*strings.Builder).String" {
+			ok = true // the lines written one by one (what is written between them: separator families above)
+		}
 		r.Check(rule, fmt.Sprintf("DecodeStack/result #%d is the name or the re-joined lines", n), m.Pos(ex.ret.Pos()), ok,
 			"the decoded name must be returned as joined (strings.Join(lines, newline)) or unchanged; got "+shortDesc(describe(v)))
 	}
